@@ -206,6 +206,11 @@ variable {K : Type} [Field K] [LinearOrder K] [IsStrictOrderedRing K]
 /-- what the code needs of `np.sqrt` -/
 def IsSqrt (sqrt : K → K) : Prop := ∀ x, 0 ≤ x → 0 ≤ sqrt x ∧ sqrt x * sqrt x = x
 
+/-- `remove_mean` as coded (translated leaf) is the row-centred pattern -/
+theorem centreC_eq (P : Nat) (x : Row K) : centreC P x = centre P x := by
+  funext c
+  simp [centreC, centre, Rsa.Gen.C01.removeMean]
+
 theorem dotP_self_nonneg (P : Nat) (x : Row K) : 0 ≤ dotP P x x := by
   unfold dotP
   rw [sumTo_eq_sum]
@@ -217,7 +222,9 @@ theorem dot_unitRow (P : Nat) (sqrt : K → K) (a b : Row K) :
     dotP P (unitRow P sqrt a) (unitRow P sqrt b) =
       dotP P (centre P a) (centre P b) /
         (sqrt (dotP P (centre P a) (centre P a)) * sqrt (dotP P (centre P b) (centre P b))) := by
-  unfold unitRow dotP
+  unfold unitRow
+  simp only [centreC_eq]
+  unfold dotP
   simp only [sumTo_eq_sum, Finset.sum_div]
   apply Finset.sum_congr rfl
   intro i _
